@@ -100,6 +100,13 @@ def handle (line : String) : String :=
   | "args" :: ws => argsHandle ws
   | "lines" :: ws => linesHandle ws
   | "edit" :: ws => editHandle ws
+  | ["gram", seed, n, depth] =>
+    -- documents of the proved grammar: `src<TAB>[expected trees]`, joined by ` ## `
+    match seed.toNat?, n.toNat?, depth.toNat? with
+    | some sd, some k, some d =>
+      "GRAM " ++ " ## ".intercalate ((TexSoup.GramGen.gramDocs sd k d).map fun (src, es) =>
+        s!"{encStr src}\t[{showExprs es}]")
+    | _, _, _ => "bad-arg"
   | _ => "bad-op"
 
 partial def loop (h : IO.FS.Stream) (out : IO.FS.Stream) : IO Unit := do
